@@ -251,6 +251,13 @@ impl WriteAheadLog {
             self.needs_rotation = true;
             return Err(map_io_error(e));
         }
+        // The file hands each write to a background thread and reports its outcome at the
+        // next write or flush; `sync_data` waits for it but does not return its error.
+        // Learn the outcome before the entry counts as written.
+        if let Err(e) = self.file.flush().await {
+            self.needs_rotation = true;
+            return Err(map_io_error(e));
+        }
         self.current_size += entry_size;
 
         match self.config.sync_mode {
